@@ -28,25 +28,50 @@ package types
 //@ -- either fails with an I/O error, or returns exactly the available bytes
 //@ -- (io.EOF iff fewer than len(p) were available).
 //@ interface WritableFile.ReadAt
-//@   requires off >= 0
 //@   assigns p[0:len(p)]
 //@   ensures 0 <= result0 && result0 <= len(p)
+//@   ensures off < 0 ==> result1 != nil && !errors.Is(result1, io.EOF) && result0 == 0
 //@   ensures result1 == nil ==> result0 == len(p) && off + int64(result0) <= int64(self.size)
-//@   ensures result1 == io.EOF ==> result0 < len(p) && ((off >= int64(self.size) && result0 == 0) || (off < int64(self.size) && off + int64(result0) == int64(self.size)))
-//@   ensures (result1 == nil || result1 == io.EOF) ==> eqbytes(p, 0, self.data, int(off), result0)
+//@   ensures errors.Is(result1, io.EOF) ==> result0 < len(p) && ((off >= int64(self.size) && result0 == 0) || (off < int64(self.size) && off + int64(result0) == int64(self.size)))
+//@   ensures (result1 == nil || errors.Is(result1, io.EOF)) ==> eqbytes(p, 0, self.data, int(off), result0)
 
 //@ interface ReadableFile.ReadAt
-//@   requires off >= 0
 //@   assigns p[0:len(p)]
 //@   ensures 0 <= result0 && result0 <= len(p)
+//@   ensures off < 0 ==> result1 != nil && !errors.Is(result1, io.EOF) && result0 == 0
 //@   ensures result1 == nil ==> result0 == len(p) && off + int64(result0) <= int64(self.size)
-//@   ensures result1 == io.EOF ==> result0 < len(p) && ((off >= int64(self.size) && result0 == 0) || (off < int64(self.size) && off + int64(result0) == int64(self.size)))
-//@   ensures (result1 == nil || result1 == io.EOF) ==> eqbytes(p, 0, self.data, int(off), result0)
+//@   ensures errors.Is(result1, io.EOF) ==> result0 < len(p) && ((off >= int64(self.size) && result0 == 0) || (off < int64(self.size) && off + int64(result0) == int64(self.size)))
+//@   ensures (result1 == nil || errors.Is(result1, io.EOF)) ==> eqbytes(p, 0, self.data, int(off), result0)
 
 //@ interface WritableFile.Close
 //@   assigns self.closed
 //@   ensures self.closed
+//@   ghostset g_open = ite(old(self.closed), g_open, g_open - 1)
 
 //@ interface ReadableFile.Close
 //@   assigns self.closed
 //@   ensures self.closed
+//@   ghostset g_open = ite(old(self.closed), g_open, g_open - 1)
+
+// ---------------------------------------------------------------------------
+// VFS: g_open is the ghost count of file handles opened through the VFS and
+// not yet closed (resource protocol for C11 "a failed Open leaves nothing open").
+// ---------------------------------------------------------------------------
+
+//@ interface VFS.Create
+//@   ensures result1 == nil ==> result0 != nil && !result0.closed && !result0.dirty && !result0.dirLinked
+//@   ensures result1 == nil ==> result0.size <= 0xffffffff
+//@   ghostset g_open = ite(result1 == nil, g_open + 1, g_open)
+
+//@ interface VFS.OpenReader
+//@   ensures result1 == nil ==> result0 != nil && !result0.closed
+//@   ensures result1 == nil ==> result0.size <= 0xffffffff
+//@   ghostset g_open = ite(result1 == nil, g_open + 1, g_open)
+
+//@ interface VFS.OpenWriter
+//@   ensures result1 == nil ==> result0 != nil && !result0.closed
+//@   ensures result1 == nil ==> result0.size <= 0xffffffff
+//@   ghostset g_open = ite(result1 == nil, g_open + 1, g_open)
+
+//@ interface VFS.Delete
+//@   ensures true
